@@ -182,11 +182,15 @@ fn check_rendering(text: &str, e: &RouteErr, out: &mut RunOut, route: &str) {
     let content = text.split('\n').nth(l - 1).unwrap_or("");
     let lines: Vec<&str> = e.rendered.split('\n').collect();
     out.stats.inc("oracle.rendering");
-    let want0 = format!("TOML parse error at line {l}, column {c}");
-    let ok = lines.first() == Some(&want0.as_str())
-        && lines.get(2) == Some(&format!("{l} | {content}").as_str())
-        && lines.get(3).map(|x| x.trim_start().starts_with('|') && x.contains('^')).unwrap_or(false)
-        && e.rendered.ends_with(&format!("{}\n", e.message));
+    // the property fixes *what* is reported (line and column of the span start, in characters), not the
+    // wording: the first rendered line must carry the two numbers in this order, some rendered line
+    // must quote the document line, and the message must follow
+    let nums: Vec<usize> = lines
+        .first()
+        .map(|l0| l0.split(|ch: char| !ch.is_ascii_digit()).filter(|x| !x.is_empty()).filter_map(|x| x.parse().ok()).collect())
+        .unwrap_or_default();
+    let quoted = content.trim_end_matches('\r');
+    let ok = nums == vec![l, c] && (quoted.is_empty() || lines.iter().skip(1).any(|x| x.trim_end_matches('\r').ends_with(quoted))) && e.rendered.contains(&e.message);
     if !ok {
         out.violate(
             "C15/4",
@@ -404,7 +408,10 @@ pub fn execute(sc: &Scenario, verbose: bool) -> RunOut {
                     out.stats.inc("oracle.key_path");
                     let (_, keys, _) = to_path(&fired.path);
                     let want = if keys.is_empty() { format!("{}\n", e.message) } else { format!("{}\nin `{}`\n", e.message, keys.join(".")) };
-                    if e.rendered != want {
+                    // wording-tolerant: the message, and the exact key path (quoted) iff there is one
+                    let tail = e.rendered.replacen(&e.message, "", 1);
+                    let ok = e.rendered.contains(&e.message) && if keys.is_empty() { !tail.contains('`') } else { tail.contains(&format!("`{}`", keys.join("."))) };
+                    if !ok {
                         out.violate(
                             "C15/5",
                             format!("C15/wrong-key-path/route={route}"),
